@@ -128,9 +128,9 @@ def swizzle_cases(tier):
             cs.append(R.Case('swizzle.expr<%s>.%s' % (vt.tag, nm), [kx],
                              label_ops(sel_judge('swizzle.expr<%s>.%s' % (vt.tag, nm), 'swizzle_expr', kx, arrx, want_x), [f[0] for f in forms])))
     # SIMD shuffle specialisations: aligned vec4 float / int (and double under AVX in thorough)
-    simd = [(CFG_OP, 'sse2', ['float', 'int'])]
+    simd = [(CFG_OP, 'sse2', ['float', 'int', 'uint'])]
     if tier == 'thorough':
-        simd.append((CFG_OP_AVX, 'avx2', ['float', 'int', 'double']))
+        simd.append((CFG_OP_AVX, 'avx2', ['float', 'int', 'uint', 'double']))
     for cfg, tag, types in simd:
         for T in types:
             vt = G.vec(4, T, 'aligned_highp')
